@@ -237,7 +237,10 @@ def exec_history(pid, tpl, seed, hid, ops, keys, plen):
             def seal(key, nonce, index):
                 evs.append({"ev": "seal", "id": tag, "op": op, "key": key, "nonce": nonce, "index": index})
             if op == "kenc" and k % 2 == 0:
-                o = cli.driver_ops(pid, tpl, [{"op": "kenc_draws", "kseed": 1, "rseed": 1, "plen": plen, "id": tag}], seed, tag)[0]
+                # library call, the source delivering short reads (the chunking follows them)
+                reads = [[], [7, 3], [1, 1, 1], [1000, 65536, 5], [65536, 100, 65536]][(k // 2 + len(hid)) % 5]
+                o = cli.driver_ops(pid, tpl, [{"op": "kenc_draws", "kseed": 1, "rseed": 1, "plen": max(plen, 12), "reads": reads,
+                                               "id": tag}], seed, tag)[0]
             elif op == "kenc":
                 r = cli.kestrel(["encrypt", sb.path("plain.bin"), "-t", "bob", "-f", "alice", "-o", sb.path("c%d.ktl" % k),
                                  "-k", sb.path("keyring.txt"), "--env-pass"], env={"KESTREL_PASSWORD": keys["alice"]["password"].decode()})
